@@ -4,10 +4,10 @@ CONSTANTS
   Slots = {"A", "B"}
   Keys = {"a1", "a2", "b1"}
   SlotOf <- MCSlotOf
-  MaxCmds = 4
+  MaxCmds = 2
   MaxHops = 3
-  WithMigration = FALSE
-  EmptyTableAtStart = FALSE
+  WithMigration = TRUE
+  EmptyTableAtStart = TRUE
   AtomicAsk = TRUE
   WithFailover = FALSE
   FixRefreshOnDialError = TRUE
